@@ -165,6 +165,13 @@ func genQueries(r *RNG, rs []idxRec) []cid.Cid {
 	}
 	add(rawCid(0x71, 0x12, r.Bytes(32)))
 	add(rawCid(0x55, 0x00, nil))
+	if len(qs) > 40 { // keep case lines small for big record sets: a random sample of the queries
+		for i := len(qs) - 1; i > 0; i-- {
+			j := r.Intn(i + 1)
+			qs[i], qs[j] = qs[j], qs[i]
+		}
+		qs = qs[:40]
+	}
 	return qs
 }
 
@@ -407,7 +414,7 @@ func malformedIndexCases(c *Ctx, r *RNG, codec uint64, rs []idxRec, qs []cid.Cid
 	n := 0
 	// every truncation of a small index, sampled for larger ones
 	for k := 0; k < len(good); k++ {
-		if len(good) > 60 && !c.Thorough && r.Intn(len(good)/30+1) != 0 {
+		if len(good) > 60 && !(c.Thorough && len(good) <= 300) && r.Intn(len(good)/30+1) != 0 {
 			continue
 		}
 		emitIdxRead(c, r, good[:k], qs, "truncated")
@@ -486,10 +493,14 @@ func init() {
 			}
 			rs, f := genRecordSet(r, n)
 			perms := genPerms(r, len(rs), 4)
+			if n > 40 {
+				perms = perms[:2]
+				c.Count("records:large-set")
+			}
 			for _, codec := range []uint64{0x0400, 0x0401} {
 				emitIdxSer(c, r, codec, rs, perms, f)
 			}
-			if a%5 == 0 {
+			if a%5 == 0 && n <= 40 {
 				qs := genQueries(r, rs)
 				for _, codec := range []uint64{0x0400, 0x0401} {
 					malformedIndexCases(c, r, codec, rs, qs, 12)
